@@ -10,14 +10,7 @@ sys.path.insert(0, VERIF)
 
 ALL = ['C%02d' % i for i in range(1, 21)]
 
-NOT_APPLICABLE = {
-    'C04': 'ABC parsing is decided by thirteen Python regular expressions tried '
-           'in order (leftmost-first alternation, greedy quantifiers, capture '
-           'groups); neither z3/cvc5 string theories nor CrossHair (probed: no '
-           'verdict for |s|<=2 in 240 s) can encode that, and keeping the text '
-           'concrete would be enumeration of runs, which this technique '
-           'excludes (DESIGN.md section 5).',
-}
+NOT_APPLICABLE = {}
 
 NOT_YET = ('solver-based check not built yet in this round (planned, see '
            'DESIGN.md section 8)')
